@@ -17,7 +17,7 @@ from vlib.core import hexs, hexlist, VERIF, CheckError
 from vlib.translate import tr_expand
 from vlib.tr_wrapper import tr_wrapper
 from vlib.tr_output import tr_output
-from vlib.tr_fault import tr_fault
+from vlib.tr_fault import tr_fault, fault_values
 from vlib.syslevel import run_many
 from vlib.faultlib import run_fscript, call_line, effective_config, cfg_fields, obs_fields, PLAUSIBLE, NEVER_FAIL
 
@@ -214,8 +214,10 @@ def check(run):
     tr_wrapper(run)
     tr_output(run)
     objs = run.build_objs("prod-ts", san=False, entry=True)
-    fv = tr_fault(run, objs)
+    tr_fault(run, objs)
     ok, failed, log = run.coq_props(["Properties_C03.v"])
+    # constants for everything model-side from here on: run.consts (replaced IN PLACE by the reference constants when an obligation is broken)
+    fv = fault_values(run)
     lib = os.path.join(run.scratch, "lib-prod-ts.so")
     run.link(lib, [], objs, san=False, shared=True)
     os.chmod(run.scratch, 0o755)
